@@ -62,9 +62,27 @@ def _solve_group(args):
     t1 = time.time()
     try:
       r = None
-      if ob.meta.get("int_projection") and ob.expect != "refutable":
+      if ob.meta.get("keep_syms") and ob.expect != "refutable":
+        # relational obligation: everything that does not mention the few symbols that differ
+        # between the two copies is made opaque first (a generalisation: proof => proof)
+        abst = smt.abstract_except(list(ob.assumptions) + [ob.goal], set(ob.meta["keep_syms"]))
+        hyps = smt.integer_projection(abst[:-1]) if ob.meta.get("int_projection") else abst[:-1]
+        r0 = smt.check(hyps, abst[-1], timeout_ms=ob.meta.get("timeout_ms", timeout), seed=seed, backends=("z3api",))
+        if r0["status"] == "unsat":
+          r0["backend"] = str(r0.get("backend")) + " (capacity-independent subterms opaque)"
+          r = r0
+      if r is None and ob.meta.get("int_projection") and ob.expect != "refutable":
         # index obligation: first try with the integer part of the hypotheses only
-        r1 = smt.check(smt.integer_projection(ob.assumptions), ob.goal, timeout_ms=ob.meta.get("timeout_ms", timeout), seed=seed)
+        proj = smt.integer_projection(ob.assumptions)
+        r1 = smt.check(proj, ob.goal, timeout_ms=ob.meta.get("timeout_ms", timeout), seed=seed)
+        if r1["status"] == "unknown":
+          # products of symbolic integers (rownnz * ndim ...) as an uninterpreted function:
+          # a weaker theory, so a proof found there is a proof
+          abst = smt.abstract_nonlinear(list(proj) + [ob.goal])
+          r0 = smt.check(abst[:-1], abst[-1], timeout_ms=ob.meta.get("timeout_ms", timeout), seed=seed, backends=("z3api",))
+          if r0["status"] == "unsat":
+            r0["backend"] = str(r0.get("backend")) + " (nonlinear products abstracted)"
+            r1 = r0
         if r1["status"] == "unsat":
           r = r1
         elif r1["status"] == "sat":
